@@ -77,6 +77,12 @@ def variants(world):
         if o:
             rnd[p] = o
     out.append(("random", rnd))
+    if cons and world["rules"]:
+        # the offending file is a symbolic link that leads nowhere: it cannot be opened, but it is looked at
+        # (and refused) all the same
+        p = cons[r.randrange(len(cons))]
+        rule = r.pick(world["rules"])
+        out.append(("dangling-%s@%d" % (rule, cons.index(p)), {p: [x for x in ("owner", "group", "symlink") if x == rule or (x == "symlink" and "symlink" in world["rules"])], "__dangling__": [p]}))
     return out
 
 
@@ -89,6 +95,9 @@ def nodes_for(world, offences):
         if n["t"] != "d":
             n["uid"] = FOREIGN_U if "owner" in off else world["req_uid"]
             n["gid"] = FOREIGN_G if "group" in off else world["req_gid"]
+        if p in offences.get("__dangling__", []):
+            nodes.append({"p": n["p"], "t": "l", "to": "$ROOT/targets/nowhere.conf", "uid": n.get("uid", world["req_uid"]), "gid": n.get("gid", world["req_gid"])})
+            continue
         if "symlink" in off and n["t"] == "f":
             n_t += 1
             tgt = dict(n)
@@ -218,6 +227,9 @@ def check(world, plans, results):
                 v.probe("offender_is_masked_dropin")
             if idx == len(cons) - 1 and len(cons) > 1:
                 v.probe("offender_is_last_file")
+        if "__dangling__" in off:
+            v.probe("offender_is_a_dangling_link")
+            continue        # the tree itself differs from the clean one: nothing to compare after the reset
         # after the reset every file is accepted again
         if r2["rc"] != b_rc or (b_rc == 0 and view(tagged(plan, res, "dump2")) != b_dump):
             v.fail("reset", "plan %s: after econf_reset_security_settings the read returns rc=%r (unrestricted: %r) or different content" % (label, r2["rc"], b_rc))
